@@ -23,7 +23,7 @@ RULE = (
     " Directed cells enumerate exact encoded data-set lengths around the peer's maximum and its fragment size and the configurations in which one side announces 0 (unlimited) and the other a finite maximum."
 )
 STUBS = ["scripted RawPeer (sender) in the regrouping cases"]
-MAXES = [0, 7, 8, 9, 16, 64, 128, 1024, 16382, 65536, 2 ** 32 - 1]
+MAXES = [0, 7, 8, 9, 16, 64, 128, 135, 1024, 16382, 16383, 65536, 2 ** 32 - 1]
 
 
 def budget(tier):
